@@ -304,9 +304,9 @@ def run(check):
     def block_ok(tr, paths):
         return tr.visitor_ty_name().endswith(OPV)
 
-    check.guarded("TRAV-COVER", lambda c: T.run_cover(c, "TRAV-COVER", OPV, {T.EXPR}, [T.excl_delete, T.excl_tpl_literal, T.excl_arrow], 4, block_override_ok=block_ok))
-    check.guarded("TRAV-COVER", lambda c: T.run_cover(c, "TRAV-COVER", BTV, {T.BLOCK}, [T.excl_cancelled], 2))
-    check.guarded("TRAV-COVER", lambda c: T.run_cover(c, "TRAV-COVER", "OptChainVisitor", {T.EXPR}, [excl_optchain_lowered], 1))
+    check.guarded("TRAV-COVER", lambda c: T.run_cover(c, "TRAV-COVER", OPV, {T.EXPR}, [T.excl_delete, T.excl_tpl_literal, T.excl_arrow], {"visit_mut_expr", "visit_mut_block_stmt"}, block_override_ok=block_ok))
+    check.guarded("TRAV-COVER", lambda c: T.run_cover(c, "TRAV-COVER", BTV, {T.BLOCK}, [T.excl_cancelled], {"visit_mut_block_stmt"}))
+    check.guarded("TRAV-COVER", lambda c: T.run_cover(c, "TRAV-COVER", "OptChainVisitor", {T.EXPR}, [excl_optchain_lowered], {"visit_mut_expr"}))
     check.guarded("TRAV-DISPATCH", rule_dispatch)
     check.guarded("BLOCK-DRIVER", rule_block_driver)
     check.guarded("ARROW-BLOCK", rule_arrow_block)
